@@ -41,6 +41,7 @@ HOSTILE_VALUES = [
     'a' * 40 + '/', '-' * 50 + 'x', '1' + '_0' * 30 + 'x', '1.0' * 25 + '_',
     'a-' * 30 + '.', '/' * 64,
 ]
+WATCHDOG_S = 60
 HOSTILE_KEYS = [
     'length', 'indent', 'encoding', 'line_endings', 'format', 'type',
     'mimetype', 'version', 'meta', 'files', 'diff', 'options', 'subsections',
@@ -536,9 +537,6 @@ def _short(v):
     return s if len(s) < 300 else s[:300] + '...'
 
 
-WATCHDOG_S = 60
-
-
 def run_case(case, st):
     data = case['data']
 
@@ -554,6 +552,60 @@ def run_case(case, st):
     reached_content = nrecs >= 1
     st.case(case, nontrivial=reached_content,
             classes=[label, 'records-%s' % (nrecs if nrecs < 5 else '5+')])
+
+
+# -- every option value of the corpus x every hostile value -----------------
+
+OPTION_RE = re.compile(rb'([A-Za-z][A-Za-z0-9_-]*)=([A-Za-z0-9/._-]+)')
+
+
+def sweep_chunks(tier, seed):
+    return list(range(len(corpus_files(small=True))))
+
+
+def run_sweep_chunk(index, st):
+    data = corpus_files(small=True)[index]
+    recs, _err = spec.ref_parse(data)
+    evals = 0
+    nontrivial = 0
+    sample = None
+
+    for rec in recs:
+        hstart, cstart, _cend = rec['span']
+        header = data[hstart:cstart]
+
+        for m in OPTION_RE.finditer(header):
+            for v in HOSTILE_VALUES:
+                try:
+                    value = v.encode('ascii')
+                except UnicodeEncodeError:
+                    value = v.encode('latin-1')
+
+                blob = (data[:hstart + m.start(2)] + value +
+                        data[hstart + m.end(2):])
+                case = {'data': blob}
+                before = len(st.buckets)
+
+                try:
+                    with sut.watchdog(WATCHDOG_S):
+                        _label, nrecs = judge(blob, st, case)
+                except sut.WatchdogTimeout:
+                    st.violation('no-termination-within-%ds' % WATCHDOG_S,
+                                 '%s=%s on %s' % (m.group(1).decode(), v[:40],
+                                                  rec['section']), case)
+                    nrecs = 0
+
+                evals += 1
+
+                if nrecs >= 1:
+                    nontrivial += 1
+
+                    if sample is None:
+                        sample = {'file': index, 'section': rec['section'],
+                                  'option': m.group(1).decode('ascii'),
+                                  'value': v[:60]}
+
+    st.bulk(evals, nontrivial, sample=sample)
 
 
 # -- coverage-guided fuzzing (thorough tier) -----------------------------
@@ -683,6 +735,17 @@ def checks():
                  'be closed afterwards and the fault must not vanish; '
                  'non-trivial = the undisturbed load makes >= 4 stream '
                  'calls'),
+        EnumCheck(
+            'option-value-sweep', sweep_chunks, run_sweep_chunk,
+            run_case=run_case,
+            rule='every option value of every header of the 7 spec examples '
+                 'and the 25 small corpus files replaced by every entry of '
+                 'the hostile-value dictionary (numbers around every limit, '
+                 'codec names of every kind, almost-numbers that make a '
+                 'backtracking pattern explode); whole contract, 60 s '
+                 'watchdog; non-trivial = the reader produced >= 1 record',
+            bound={'quick': 'all (file, header, option, hostile value) '
+                            'combinations', 'thorough': 'same'}),
         EnumCheck(
             'atheris', atheris_chunks, run_atheris, run_case=run_case,
             exhaustive=False,
